@@ -45,6 +45,7 @@ CONSTANTS MaxObj,     \* objects per scenario
           BUG_TimerRevive,      \* Timer.Cancel after Close puts the timer back to ready
           BUG_AdapterRawClose,  \* AsyncAdapter.Close closes the net.Conn's descriptor number itself
           BUG_WsResetLeak,      \* websocket: a second handshake on the same stream forgets the previous net.Conn without closing it
+          BUG_ForeignDeregister,\* IO.Deregister clears the entry of the stored number whoever registered there
           BUG_EarlyDeregister,  \* completion handlers Deregister although the other direction is parked
           BUG_SocketNonblockLeak, \* internal.socket(): failed SetNonblock returns the fd with an error, callers drop it
           BUG_AcceptLeak        \* accept(): failed getsockname drops the accepted descriptor
@@ -167,8 +168,9 @@ AllocN(t, n, owner) == IF n = 0 THEN t ELSE AllocN([t EXCEPT ![Lowest(t)] = owne
 
 \* syscall.Close(number): closes whatever is there
 CloseNum(t, f) == IF f >= 0 /\ t[f] # 0 THEN [t EXCEPT ![f] = 0] ELSE t
-\* IO.Deregister(&slot): clears the registry entry of slot.Fd whoever put it there
-Dereg(r, f)    == IF f >= 0 THEN [r EXCEPT ![f] = 0] ELSE r
+\* IO.Deregister(&slot) of object o: clears the registry entry of slot.Fd - before the
+\* repair whoever had put it there, since then only the object's own
+DeregO(r, f, o) == IF f >= 0 /\ (BUG_ForeignDeregister \/ r[f] = o) THEN [r EXCEPT ![f] = 0] ELSE r
 
 SortedSeq(S) == SetToSortSeq(S, LAMBDA a, b : a < b)
 
@@ -281,14 +283,14 @@ CloseEffect(o) ==
   IF ob.closed /\ Guarded(ob) THEN [t |-> tab, r |-> reg, ob |-> [ob EXCEPT !.ncl = @ + 1]]
   ELSE IF ob.kind = "adp" /\ ~BUG_AdapterRawClose THEN
        \* repaired: the adapter closes through the net.Conn, which closes its descriptor once
-       [t |-> IF ob.nconn = "open" THEN CloseNum(tab, ob.fd) ELSE tab, r |-> Dereg(reg, ob.fd),
+       [t |-> IF ob.nconn = "open" THEN CloseNum(tab, ob.fd) ELSE tab, r |-> DeregO(reg, ob.fd, o),
         ob |-> [ob EXCEPT !.closed = TRUE, !.ncl = @ + 1, !.evr = FALSE, !.evw = FALSE, !.nconn = "closed"]]
   ELSE IF ob.kind \in {"ws", "wsa"} THEN
        \* CloseNextLayer: net.Conn.Close, guarded by conn = nil
        [t |-> IF ob.nconn = "open" THEN CloseNum(tab, ob.fd) ELSE tab, r |-> reg,
         ob |-> [ob EXCEPT !.closed = TRUE, !.ncl = @ + 1, !.nconn = "closed"]]
   ELSE [t |-> CloseNum(CloseNum(tab, ob.fd), ob.fd2),
-        r |-> IF ob.kind \in {"io", "timer"} THEN reg ELSE Dereg(reg, ob.fd),
+        r |-> IF ob.kind \in {"io", "timer"} THEN reg ELSE DeregO(reg, ob.fd, o),
         ob |-> [ob EXCEPT !.closed = TRUE, !.ncl = @ + 1, !.evr = FALSE, !.evw = FALSE]]
 
 DoClose(o) ==
@@ -336,7 +338,7 @@ LayerClose(o) ==
   IN
   /\ ob.st = "live" /\ ob.kind \in {"ws", "wsa"} /\ ob.gen = 1 /\ ob.ncl < MaxClose /\ ob.refs
   /\ tab' = t1
-  /\ reg' = IF ob.lclosed THEN reg ELSE Dereg(reg, ob.fd)
+  /\ reg' = IF ob.lclosed THEN reg ELSE DeregO(reg, ob.fd, o)
   /\ objs' = [objs EXCEPT ![o].lclosed = TRUE, ![o].ncl = @ + 1,
                           ![o].nconn = IF BUG_AdapterRawClose \/ ob.lclosed THEN @ ELSE "closed"]
   /\ mon' = M!Step(mon, Ev("Close", o, ob.kind, "none", 1, 0, "", 0, Census(tab), Census(t1), {}, {}))
@@ -379,7 +381,7 @@ Fire(o, dir) ==
   /\ IF dir = "r" THEN ob.evr ELSE ob.evw
   /\ objs' = [objs EXCEPT ![o].evr = IF dir = "r" THEN FALSE ELSE @, ![o].evw = IF dir = "w" THEN FALSE ELSE @]
   /\ reg' = IF ob.kind = "timer" THEN reg
-            ELSE IF BUG_EarlyDeregister \/ ~other THEN Dereg(reg, ob.fd) ELSE reg
+            ELSE IF BUG_EarlyDeregister \/ ~other THEN DeregO(reg, ob.fd, o) ELSE reg
   /\ mon' = M!Step(mon, Ev(IF ob.refs THEN "Done" ELSE "Deliver", o, ob.kind, "none", 1, 0, dir, 0,
                            Census(tab), Census(tab), {}, {}))
   /\ hist' = Append(hist, Cmd("Fire", o, ob.kind, "none", dir, 1, 0, 0, 0))
